@@ -71,6 +71,7 @@ func GenFetcher(c *lib.Ctx) {
 			c.Count("observed:stalled-peer-FetchData-returned-by-deadline")
 		}
 	}
+	genSlow(c, c.Scale(8, 40))
 	genFetcher(c, false, c.Scale(60, 500))
 	genFetcher(c, true, c.Scale(25, 200))
 }
@@ -373,6 +374,93 @@ func genFetcher(c *lib.Ctx, overQUIC bool, nh int) {
 			if strings.HasPrefix(got, "panic") {
 				break
 			}
+		}
+	}
+}
+
+// genSlow: a slow key-exchange server and a caller with a deadline. The scripted TLS peer
+// completes the handshake, reads the request and answers a complete, valid message only after
+// `pre` ms; FetchData runs under a context that expires after `ctxms` ms - before the answer
+// (the measurement's budget is shorter than the server's latency) or, as control, after it.
+// Further calls against a prompt server follow once the late answer has been delivered.
+// Oracles (on the implementation's own answers, whatever the verdict of the slow call is):
+// a call that reported failure leaves the pool as it was; the call after a failed one on an
+// empty pool performs a new exchange and hands out the keys and cookies of that exchange.
+func genSlow(c *lib.Ctx, nh int) {
+	r := c.Rand.Fork("fetcher-slow-server")
+	for hi := 0; hi < nh; hi++ {
+		host := []string{"127.0.0.2", "127.1.2.3", "127.0.0.1"}[hi%3]
+		c.Comment(fmt.Sprintf("history slow-server %d", hi))
+		var hist []string
+		do := func(op string) string { hist = append(hist, op); return c.Do(op) }
+		do("f.new host=" + host)
+		lastPool := "[]"
+		prevFailed := false
+		steps := 3 + r.Intn(2)
+		slowAt := r.Intn(2)
+		for idx := 1; idx <= steps; idx++ {
+			nck := 1 + r.Intn(4)
+			if idx-1 < slowAt {
+				nck = 1 // the pool is empty again when the slow server is asked
+			}
+			rs := baseMsg(r, nck, true)
+			timing := ""
+			if idx-1 == slowAt {
+				ctx := int(r.Range(25, 60))
+				pre := ctx + int(r.Range(80, 160))
+				if hi%4 == 3 { // control: the answer arrives within the deadline
+					pre, ctx = int(r.Range(5, 30)), 2000
+					c.Count("slow-server:answer-within-deadline")
+				} else {
+					c.Count("slow-server:answer-after-deadline")
+				}
+				timing = fmt.Sprintf(" pre=%d ctxms=%d", pre, ctx)
+			}
+			wasEmpty := lastPool == "[]"
+			op := fmt.Sprintf("f.fetch dial=1 alpn=%s host=%s stream=%s srvalpn=ntske/1 close=graceful drop=no%s",
+				lib.Hex([]byte("ntske/1")), hexOf(host), hexList([][]byte{flat(rs)}), timing)
+			got := do(op)
+			if strings.HasPrefix(got, "harness-assumption-broken") {
+				c.NotExecuted("scripted TLS peer: " + got)
+				break
+			}
+			gp := poolTok(got)
+			switch {
+			case strings.HasPrefix(got, "err"):
+				c.Count("slow-server:fetch-err")
+				if gp != lastPool {
+					c.Count("oracle:failed-fetch-changed-pool")
+					c.Fail("c20:failed-fetch-leaves-state",
+						"a FetchData that reported failure changed the cookie pool: something of the failed attempt is kept and would be used by a later request",
+						hist, map[string]any{"got": got, "pool_before": lastPool, "pool_after": gp})
+				}
+			case strings.HasPrefix(got, "ok"):
+				c.Count("slow-server:fetch-ok")
+				if wasEmpty {
+					// an empty pool: the data handed out is that of an exchange made in this call
+					ok, _, srv, prt, algo, cks := expectRead(rs, host, 123)
+					want := ""
+					if ok && len(cks) > 0 {
+						want = fmt.Sprintf("ok exch=true %s keys=ex%d pool=%s",
+							fmtData(ntske.Data{Server: srv, Port: prt, Algo: algo, Cookie: cks}), idx, hexList(cks[1:]))
+					}
+					c.Count("oracle:empty-pool-fetch-is-a-new-exchange")
+					if got != want {
+						sig, what := "c20:fetch-contract", "FetchData on an empty pool did not hand out the keys and cookies of an exchange made in this call"
+						if prevFailed {
+							sig, what = "c20:failed-exchange-leaves-state", "after a FetchData that reported failure the next one did not perform a complete new exchange: it handed out data left behind by the failed attempt"
+						}
+						c.Fail(sig, what, hist, map[string]any{"got": got, "want": want})
+					}
+				}
+			default:
+				c.Fail("c20:fetch-contract", "FetchData neither returned data nor an error", hist, map[string]any{"got": got})
+				return
+			}
+			if gp != "" {
+				lastPool = gp
+			}
+			prevFailed = strings.HasPrefix(got, "err")
 		}
 	}
 }
